@@ -15,6 +15,7 @@ from __future__ import annotations
 
 import datetime
 import enum
+import inspect
 import itertools
 import json
 import re
@@ -34,7 +35,10 @@ RULE = (
     "(7 opcodes; DATA around library-serialised, round-trip-stable HDAP payloads: captured ones and constructed "
     "RCP/TMP/LP/RRS; one class with the packet number solved so that the ones-complement sum needs a second end-around "
     "carry), plus directed PDUs of every kind whose check value on the wire is solved to be exactly all-zero and exactly "
-    "all-ones (HRNP, every opcode: 0x0000, 0x0001, 0xFFFE and double carry; 0xFFFF is unreachable); non-trivial = check "
+    "all-ones (HRNP, every opcode: 0x0000, 0x0001, 0xFFFE and double carry; 0xFFFF is unreachable), and directed PDUs "
+    "with structured payload content (HRNP payloads holding the enclosing frame's header/version pair, header copies, "
+    "length and terminator octets at the start / middle / near the end / repeated, constant fills, for every version; "
+    "rate blocks and PI header with constant fill, repeated record, identical halves); non-trivial = check "
     "value neither 0 nor all-ones, or a directed extreme-value PDU; distinct by hash of the field values.  "
     "(b) words_*: complete enumeration of the 2^20 / 2^16 received words; every word is a distinct case.  "
     "(c) fault_*: per PDU kind, seeded random PDUs plus PDUs *constructed* (window of check-width message bits solved on "
@@ -63,7 +67,9 @@ ASSUMPTIONS = [
     "generated in code-word order and mapped; a wire-contiguous burst over those fields is not claimed",
     "rate 1/2, 3/4, 1 blocks are parsed with from_bits_typed(bits, Confirmed|ConfirmedLastBlock) - the call "
     "Transmission makes once the header announced confirmed data; untyped from_bits has no CRC-9 notion",
-    "'interpreted fields' = the public, non-callable attributes of the parsed object (recursively), the indicator itself "
+    "'interpreted fields' = the public, non-callable attributes of the parsed object that are constructor parameters of "
+    "its class (plus data_packet_format / radio_ip_id_target / talker_alias_data_format, set by differently named "
+    "parameters), recursively, the indicator itself "
     "excluded; attributes whose value contains the complete input handed to the parser (diagnostic copies of the received "
     "bits / octets) are not field values and are ignored, as are attributes present on only one of the two parses",
     "any exception raised by the parser on a corrupted input counts as a decode error for this property (which "
@@ -293,6 +299,21 @@ def code_params(pdu, n):
     raise HarnessError(k)
 
 
+# fields whose attribute name differs from the constructor parameter that sets them (compared explicitly by name)
+RENAMED_FIELDS = {"data_packet_format", "radio_ip_id_target", "talker_alias_data_format"}
+_CTOR_PARAMS = {}
+
+
+def _ctor_params(cls):
+    """names of the constructor parameters of ``cls`` (the fields a caller can set); None if not introspectable"""
+    if cls not in _CTOR_PARAMS:
+        try:
+            _CTOR_PARAMS[cls] = {n for n in inspect.signature(cls.__init__).parameters if n != "self"}
+        except (TypeError, ValueError):
+            _CTOR_PARAMS[cls] = None
+    return _CTOR_PARAMS[cls]
+
+
 def dump(o, _depth=0):
     """Generic field dump of a parsed PDU: public attributes, recursively; the validity indicators are left out."""
     if o is None or isinstance(o, (bool, int, str)):
@@ -311,9 +332,12 @@ def dump(o, _depth=0):
         return repr(o)
     if hasattr(o, "__dict__") and _depth < 6:
         d = {"__class__": type(o).__name__}
+        settable = _ctor_params(type(o))
         for k in sorted(vars(o)):
             if k.startswith("_") or k in INDICATOR_ATTRS:
                 continue
+            if settable is not None and k not in settable and k not in RENAMED_FIELDS:
+                continue  # derived / diagnostic attribute: not a field a caller can set
             v = getattr(o, k)
             if callable(v) and not isinstance(v, enum.Enum):
                 continue
@@ -335,8 +359,12 @@ def oracle_rt_small(case):
         if len(bits) != 20:
             raise Fail("serialised_length", len(bits), 20, klass="slot_type")
         w = bits.tolist()
-        dt_wire = case["dt"] if case["dt"] <= 12 else 12  # reserved data types 13..15 are folded to Reserved(12) by the constructor
-        exp = gf2.ref_encode("golay_20_8_7", gf2.int_to_bits(case["cc"], 4) + gf2.int_to_bits(dt_wire, 4))
+        # the data bits the library emitted: the colour code, and the data type either verbatim or - reserved values 13..15 -
+        # folded to Reserved(12); both serialisations of a reserved data type are legitimate
+        dt_ok = [case["dt"]] + ([12] if case["dt"] > 12 else [])
+        if gf2.bits_to_int(w[:4]) != case["cc"] or gf2.bits_to_int(w[4:8]) not in dt_ok:
+            raise Fail("serialised_data_bits", bits.to01()[:8], {"cc": case["cc"], "dt": dt_ok}, klass="slot_type")
+        exp = gf2.ref_encode("golay_20_8_7", w[:8])  # reference parity over the 8 data bits actually emitted
         if w != exp:
             raise Fail("check_value_equals_reference", bits.to01(), "".join(map(str, exp)), klass="slot_type")
         st, p = call(L.SlotType.from_bits, bits.copy())
@@ -868,6 +896,93 @@ def extreme_pdus(ctx: Ctx, kinds, pool):
     return out
 
 
+def structured_pdus(ctx: Ctx, kinds):
+    """Directed PDUs with *structured payload content* (ROUND5 class A.4).  HRNP: HDAP payloads (TMP short data, TMP text
+    octets, RCP with a raw payload) whose free content holds the octets of the enclosing HRNP frame - the header/version
+    pair 7E vv at the start, in the middle, repeated, with 0 / 1 / 7 / 8 / 9 / 20 octets following, the first 6 and the
+    first 10 header octets, the frame's own length octets, the 0x03 terminator - and constant fills; for every version
+    0..4.  Rate 1/2, 3/4, 1 confirmed (last) blocks and the PI header: constant fill, a 2-octet record repeated,
+    identical halves.  Payloads that are not round-trip stable through HDAP.from_bytes are left out (counted).  Returns
+    [(kind, label, None, pdu)]; deterministic in VERIF_SEED."""
+    out = []
+    L = _lib()
+    for kind in kinds:
+        rng = ctx.rng("structured_payloads", kind)
+        if kind in RATE_KINDS or kind == "pi_header":
+            for last in ([False, True] if kind in RATE_KINDS else [None]):
+                nb = RATE_DATA_OCTETS[(kind, last)] if kind in RATE_KINDS else 10
+                rec = bytes([rng.getrandbits(8), rng.getrandbits(8)])
+                half = bytes(rng.getrandbits(8) for _ in range(nb // 2))
+                shapes = {"const_00": b"\x00" * nb, "const_ff": b"\xff" * nb, "const_55": b"\x55" * nb, "const_aa": b"\xaa" * nb, "const_7e": b"\x7e" * nb,
+                          "record_repeated": (rec * nb)[:nb], "identical_halves": (half + half + b"\x00")[:nb]}
+                for label, data in shapes.items():
+                    p = {"kind": kind, "data": data.hex()}
+                    if kind in RATE_KINDS:
+                        p.update(last=last, dbsn=rng.getrandbits(7))
+                        if last:
+                            p["crc32"] = int.from_bytes((data * 4)[:4], "big") or 1  # the same record continues into the CRC-32 field
+                    out.append((kind, f"structured_payload:{label}", None, p))
+            continue
+        if kind != "hrnp":
+            continue
+        from okdmr.dmrlib.hytera.pdu.radio_control_protocol import RadioControlProtocol, RCPOpcode
+        from okdmr.dmrlib.hytera.pdu.radio_ip import RadioIP
+        from okdmr.dmrlib.hytera.pdu.text_message_protocol import TextMessageProtocol, TMPService
+
+        def fill(k):
+            return bytes((rng.getrandbits(8) or 1) for _ in range(k)).replace(b"\x7e", b"\x5a")  # no accidental marker
+
+        for version in range(5):
+            hdr = {"src": rng.getrandbits(8), "dst": rng.getrandbits(8), "block": rng.getrandbits(8), "pn": rng.getrandbits(16), "version": version}
+            m = bytes([0x7E, version])
+            head6 = bytes([0x7E, version, hdr["block"], 0x00, hdr["src"], hdr["dst"]])
+            shapes = {
+                "marker_at_start": m + fill(20),
+                "marker_in_middle": fill(7) + m + fill(15),
+                "marker_repeated": m * 9,
+                "marker_twice": m + fill(10) + m + fill(12),
+                "header6_copy": fill(3) + head6 + fill(14),
+                "const_7e": b"\x7e" * 24, "const_version": bytes([version]) * 24, "const_00": b"\x00" * 24, "const_ff": b"\xff" * 24, "const_03": b"\x03" * 24,
+                "terminator_then_marker": fill(4) + b"\x03" + m + fill(13),
+                "empty": b"",
+            }
+            for tail in (0, 1, 7, 8, 9, 20):  # octets of content after the marker: both sides of "a whole header still fits"
+                shapes[f"marker_then_{tail}_octets"] = fill(6) + m + fill(tail)
+            carriers = {
+                "tmp_short_data": lambda c: TextMessageProtocol(opcode=TMPService.PrivateShortData, source_ip=RadioIP(1001), destination_ip=RadioIP(1002), short_data=c, request_id=1),
+                "tmp_text_octets": lambda c: TextMessageProtocol(opcode=TMPService.SendGroupMessage, source_ip=RadioIP(1001), destination_ip=RadioIP(1), text_data=c, request_id=2),
+                "rcp_raw_payload": lambda c: RadioControlProtocol(opcode=RCPOpcode.UnknownService, raw_opcode=b"\x7e" + bytes([version]), raw_payload=c),
+            }
+            for cname in sorted(carriers):
+                for label in sorted(shapes):
+                    content = shapes[label]
+                    variants = [content]
+                    if label == "header6_copy":
+                        # the first 10 header octets (with the frame's true length) and the length octets alone: the frame
+                        # length depends only on the content length, so solve by building once
+                        variants = []
+                        try:
+                            flen = 12 + len(carriers[cname](content + b"\x00" * 4).as_bytes())
+                        except Exception:
+                            flen = None
+                        if flen is not None:
+                            head10 = head6 + hdr["pn"].to_bytes(2, "big") + flen.to_bytes(2, "big")
+                            variants = [content + b"\x00" * 4, fill(3) + head10 + fill(14), fill(5) + flen.to_bytes(2, "big") + fill(20)]
+                            if len({len(v) for v in variants}) != 1:
+                                raise HarnessError("structured payload variants must have one length (the frame length is solved for it)")
+                    for vi, c in enumerate(variants):
+                        lab = label if vi == 0 else ("header10_copy" if vi == 1 else "frame_length_octets")
+                        try:
+                            raw = carriers[cname](c).as_bytes()
+                            if L.HDAP.from_bytes(raw).as_bytes() != raw:
+                                raise ValueError("not a fixed point")
+                        except Exception as e:
+                            ctx.tally.excluded[f"structured_payload:{cname}:{type(e).__name__}"] += 1
+                            continue
+                        out.append((kind, f"structured_payload:{cname}:{lab}", None, dict(hdr, kind="hrnp", opcode="DATA", hdap=raw.hex())))
+    return out
+
+
 def gen_low_weight_checksum_hrnp(rng, pool):
     """HRNP DATA datagram whose checksum has weight 1..2: the packet number is solved for on the reference sum."""
     p = gen_pdu(rng, "hrnp", pool)
@@ -1190,6 +1305,12 @@ def drv_rt_pdu(ctx: Ctx, sub: SubCheck):
         if chk is not None and target is not None and chk != target:
             raise HarnessError(f"directed extreme check value missed: {kind} {label} wanted {target:#x} got {chk:#x} for {case}")
 
+    # directed: structured payload content (frame header / version / terminator / length octets inside the payload, fills)
+    for kind, label, target, case in structured_pdus(ctx, ALL_KINDS):
+        chk, ok = _run(ctx, sub.name, oracle_rt_pdu, case, ctx.tally)
+        ctx.tally.case(sub.name, key=case, nontrivial=True, cls=f"{kind}:{label}" if kind != "hrnp" else label.rsplit(":", 1)[0] + ":*")
+        ctx.tally.cls(sub.name, "structured_payload_shape:" + label.rsplit(":", 1)[-1])
+
     # short LC: every pair of activity ids (10 x 10) with seeded random addresses, always
     rng = ctx.rng("short_lc_pairs")
     for a1 in ACTIVITY_DEFINED:
@@ -1355,6 +1476,13 @@ def make_fault_driver(group):
             if n is None:
                 n = len(serialise(pdu, build(pdu)))
             items.append((kind, f"extreme_check_value:{label}", pdu, n, 1, 0, f"{kind}:extreme:{j}", 0, 0, 0, False, "weight_1_only", 0, 0))
+        for j, (kind, label, target, pdu) in enumerate(structured_pdus(ctx, kinds)):
+            if j % 3:
+                continue
+            n = expected_wire_bits(pdu)
+            if n is None:
+                n = len(serialise(pdu, build(pdu)))
+            items.append((kind, "structured_payload", pdu, n, 1, 0, f"{kind}:structured:{j}", 0, 0, 0, False, "weight_1_only", 0, 0))
         # mask / data-type confusion: per kind one random and two extreme-check PDUs (rate blocks: also read as the other
         # confirmed block type) x the patterns whose syndrome is the xor of two standard masks
         for kind in kinds:
